@@ -26,10 +26,10 @@ from vf import c06_hook, c06_ref, core
 PROP = "C06"
 NEEDS_PARSER = True
 FLOOR = 0.30
-RULE = ("builtin: every subset of size <= 2 of 53 specifier atoms (44 in 2D mode) (specifier form x argument "
+RULE = ("builtin: every subset of size <= 2 of 55 specifier atoms (46 in 2D mode) (specifier form x argument "
         "kind), every subset of size 3 of a 22-atom core (thorough: of all atoms, plus size 4 of "
         "the core) and seeded samples of larger subsets, each in every permutation, in 3D and 2D "
-        "mode, for class Object (pairs also for Point and OrientedPoint); synthetic: Hypothesis "
+        "mode, for class Object (pairs also for Point, OrientedPoint and a user class UC whose parentOrientation / heading default is not the global frame); synthetic: Hypothesis "
         "specifier sets over 6 properties; classes: Hypothesis class hierarchies of depth <= 3. "
         "Non-trivial = at least two specifiers touch a common property, or a dependency chain of "
         "length >= 2 (a specifier depending on a property another user specifier or a dependent "
@@ -90,6 +90,10 @@ ATOMS = {
     "offalf": A("offset along vf by (1, 2)", POS_PO3),
     "bey": A("beyond (20, 20) by 3", POS_PO3),
     "beyf": A("beyond (20, 20) by (1, 2) from OP", POS_PO3),
+    # "...the orientation of the third argument if it is an OrientedPoint; otherwise the global
+    # coordinate system is used": parentOrientation is specified (priority 3) in every case
+    "beyv": A("beyond (21, 21) by 3 from (5, 5)", POS_PO3),
+    "beyp": A("beyond (22, 22) by (1, 2) from P", POS_PO3),
     "vis": A("visible", {"position": 3}, ["regionContainedIn"]),
     "visf": A("visible from P", {"position": 3}, ["regionContainedIn"]),
     "nvis": A("not visible", {"position": 3}, ["regionContainedIn"]),
@@ -140,6 +144,9 @@ OP = new OrientedPoint at (-50, 50), facing 0.21
 OB = new Object at (0, 0, -60), facing 0.31, with width 2500, with length 2400, with height 2, with allowCollisions True
 _h.install(globals())
 '''
+# a user class whose defaults differ from Object's for what specifiers optionally specify
+SETUP_UC = {False: "class UC:\n    parentOrientation: 0.9\n    contactTolerance: 0.3\n",
+            True: "class UC:\n    heading: 0.9\n"}
 
 # documented derived-property dependencies (Point / OrientedPoint / Object docstrings)
 DOC_DEFAULT_DEPS = {
@@ -216,13 +223,15 @@ def builtin_subsets(tier, seed):
         atoms = atoms_for(mode2D)
         core_atoms = [a for a in CORE if a in atoms]
         for a in atoms:
-            for c in ("Object", "OrientedPoint", "Point"):
+            for c in ("Object", "OrientedPoint", "Point", "UC"):
                 out.append((c, mode2D, (a,)))
         for pair in itertools.combinations(atoms, 2):
             out.append(("Object", mode2D, pair))
         for pair in itertools.combinations(core_atoms, 2):
             out.append(("OrientedPoint", mode2D, pair))
             out.append(("Point", mode2D, pair))
+        for pair in itertools.combinations(core_atoms + ["beyv", "beyp", "bey", "offal", "aheadop"], 2):
+            out.append(("UC", mode2D, pair))
         if tier == "quick":
             triples = list(itertools.combinations(core_atoms, 3))
             for _ in range(700):
@@ -248,7 +257,7 @@ def run_builtin_chunk(chunk, mode2D):
     """Compile one program with one `new` line per subset; returns hook results."""
     import scenic
 
-    lines = [SETUP]
+    lines = [SETUP.replace("_h.install(globals())", SETUP_UC[mode2D] + "_h.install(globals())")]
     plan = []
     for clsname, _, ids in chunk:
         lines.append(f"new {clsname} " + ", ".join(ATOMS[a]["src"] for a in ids))
@@ -315,7 +324,7 @@ def judge_builtin(case, res):
     profile = conflict_profile(specs)
 
     # (1) table: what each constructed specifier declares = what the reference lists
-    if len(ids) == 1 and case["cls"] == "Object":
+    if len(ids) == 1 and case["cls"] in ("Object", "UC"):
         a = ids[0]
         dec = res["declared"][0]
         doc = specs[0]
@@ -687,16 +696,30 @@ OUT_PROPS = CPROPS + ["ghost", "width", "length", "yaw", "heading"]
 
 
 @st.composite
-def class_cases(draw):
-    depth = draw(st.integers(1, 3))
+def class_cases(draw, branchy=False):
+    # hierarchy shape: a chain, two roots joined by multiple inheritance, or a diamond
+    shape = draw(st.sampled_from(["join", "diamond"] if branchy
+                                 else ["chain", "chain", "join", "diamond"]))
+    if shape == "chain":
+        depth = draw(st.integers(1, 3))
+        bases = [[] if k == 0 else [k - 1] for k in range(depth)]
+    elif shape == "join":
+        depth, bases = 3, [[], [], [0, 1]]
+    else:
+        depth, bases = 4, [[], [0], [0], [1, 2]]
     classes = []
-    additive = {p for p in CPROPS if draw(st.integers(0, 5)) == 0}
+    additive = {p for p in CPROPS if draw(st.integers(0, 5 if shape == "chain" else 2)) == 0}
+    if branchy and not additive:
+        additive = {draw(st.sampled_from(CPROPS))}
     for k in range(depth):
         body = {}
         for p in CPROPS:
-            if draw(st.integers(0, 2)) == 0 or (k == 0 and draw(st.booleans())):
+            branchy = shape != "chain" and p in additive
+            if draw(st.integers(0, 2)) == 0 or (k == 0 and draw(st.booleans())) or \
+                    (branchy and draw(st.integers(0, 3)) > 0):
                 terms = [["c", draw(st.integers(-9, 9))]]
-                for _ in range(draw(st.integers(0, 2))):
+                # additive defaults in different branches carry different `self.` dependencies
+                for _ in range(draw(st.integers(1 if branchy else 0, 2))):
                     t = draw(st.sampled_from(["own", "own", "own", "builtin", "ghost"]))
                     if t == "own":
                         # (additive properties are tuples: not used as summands)
@@ -729,13 +752,27 @@ def class_cases(draw):
     if draw(st.integers(0, 5)) == 0:
         hd = [draw(st.integers(0, depth - 1)), draw(st.integers(1, 12)) / 8]
     return {"family": "classes", "mode2D": draw(st.sampled_from([False, False, True])),
-            "classes": classes, "withs": withs, "hd": hd}
+            "classes": classes, "withs": withs, "hd": hd, "bases": bases}
+
+
+def class_bases(case):
+    n = len(case["classes"])
+    return case.get("bases") or [[] if k == 0 else [k - 1] for k in range(n)]
+
+
+def class_mro(case, k):
+    """Indices of class k and its ancestors, most derived first (Python's linearisation)."""
+    made = []
+    for i, bs in enumerate(class_bases(case)[:k + 1]):
+        made.append(type(f"C{i}", tuple(made[j] for j in bs) or (object,), {"_i": i}))
+    return [c.__dict__["_i"] for c in made[k].__mro__ if "_i" in c.__dict__]
 
 
 def emit_classes(case):
     lines = ["ego = new Object at (500, 500)"]
     for k, body in enumerate(case["classes"]):
-        base = "" if k == 0 else f"(C{k - 1})"
+        bs = class_bases(case)[k]
+        base = "(" + ", ".join(f"C{i}" for i in bs) + ")" if bs else ""
         lines.append(f"class C{k}{base}:")
         hd = case.get("hd")
         if hd and hd[0] == k:
@@ -772,13 +809,17 @@ def ref_classes(case):
         for p, d in body.items():
             if "additive" in d["attrs"] and "dynamic" in d["attrs"]:
                 kinds.add("additive-dynamic")
-            for j in range(k):
-                if p in classes[j] and "final" in classes[j][p]["attrs"]:
-                    kinds.add("final-overridden")
+    for k in range(len(classes)):
+        # a final default may not be overridden: it must come last among the defaults a class sees
+        order = class_mro(case, k)
+        for p in CPROPS:
+            defs = [classes[i][p] for i in order if p in classes[i]]
+            if any("final" in d["attrs"] for d in defs[1:]):
+                kinds.add("final-overridden")
     hd = case.get("hd")
     if hd and not case["mode2D"]:
         kinds.add("final-overridden")
-    mro = list(reversed(classes))  # most derived first
+    mro = [classes[i] for i in class_mro(case, len(classes) - 1)]  # most derived first
     own = {}
     for p in CPROPS:
         defs = [b[p] for b in mro if p in b]
@@ -841,6 +882,9 @@ def judge_classes(case):
     from scenic.core.errors import InvalidScenarioError
 
     out = core.Outcome()
+    shape = "chain" if all(len(b) <= 1 for b in class_bases(case)) else (
+        "diamond" if len(case["classes"]) == 4 else "join")
+    out.cls("shape:" + shape)
     out.cls("classes", f"depth:{len(case['classes'])}", f"withs:{len(case['withs'])}",
             "2D" if case["mode2D"] else "3D")
     src = emit_classes(case)
@@ -875,7 +919,8 @@ def judge_classes(case):
         if "dynamic" in feats and kind in ("missing-dependency", "cyclic"):
             # defining a class with a dynamic property evaluates all defaults without any
             # specifier; what that should do with defaults that need one is not documented
-            if any(ref_classes(dict(case, classes=case["classes"][:k + 1], withs=[]))[0] == "error"
+            if any(ref_classes(dict(case, classes=case["classes"][:k + 1], withs=[],
+                                    bases=class_bases(case)[:k + 1]))[0] == "error"
                    for k in range(len(case["classes"]))):
                 out.cls("unjudged:dynamic-defaults-evaluated-at-class-definition")
                 return out
@@ -954,7 +999,7 @@ def _plain(v):
 # --------------------------------------------------------------------------------------------
 
 def strategy():
-    return st.one_of(synthetic_cases(), synthetic_cases(), class_cases())
+    return st.one_of(synthetic_cases(), synthetic_cases(), class_cases(), class_cases(branchy=True))
 
 
 def judge(case):
